@@ -499,8 +499,22 @@ for _d in sorted(_glob.glob(_os.path.join(_SEEDED, "*"))):
     CASES.append(dict(kind="mutant", name="seeded-" + _os.path.basename(_d), props=[_m["property"]], edits=[], expect=None,
                       patch=_os.path.join(_d, "patch.diff")))
 
+# ------------------------------------------------------------------------------- behaviour-preserving refactoring corpus (selftest/refactors/*.diff)
+# written by sub-agents (book-*, market-*, env-*, agents-*, macros-*, pyo3-*) or derived from the independent seeds by
+# repairing the seeded bug while keeping the refactoring it was hidden in (r2fix-*); every check must stay silent.
+# UNSUPPORTED: refactorings whose correctness the static rules cannot establish (reported, documented in DESIGN.md 6.5)
+ALL_PROPS = ["C%02d" % _i for _i in range(1, 21)]
+UNSUPPORTED_REFACTORS = {}
+for _f in sorted(_glob.glob(_os.path.join(_os.path.dirname(_os.path.abspath(__file__)), "refactors", "*.diff"))):
+    _n = _os.path.basename(_f)[:-5]
+    if _n in UNSUPPORTED_REFACTORS:
+        continue
+    CASES.append(dict(kind="refactor", name="corpus-" + _n, props=list(ALL_PROPS), edits=[], patch=_f))
+
 # ------------------------------------------------------------------------------- later additions
 mutant("c16-noise-limit-uses-p-market", "C16", (NOISE, "            if rng.gen::<f32>() < self.params.p_limit {\n                let side = rng.gen_bool(0.5);\n\n                let order_id = match side {\n                    true => common::place_buy_limit_order(\n                        env,", "            if rng.gen::<f32>() < self.params.p_market {\n                let side = rng.gen_bool(0.5);\n\n                let order_id = match side {\n                    true => common::place_buy_limit_order(\n                        env,"), expect="activity")
 mutant("c01-no-writeback-place", ["C01", "C04", "C02"], (OB, "            }\n        }\n\n        self.orders[order_id] = order_entry;\n    }\n\n    /// Cancel an order", "            }\n        }\n\n        if order_entry.order.status != Status::Rejected {\n            self.orders[order_id] = order_entry;\n        }\n    }\n\n    /// Cancel an order"), expect="writeback")
 mutant("c01-prio-key-swapped", ["C01", "C02"], [(SIDE, "        self.orders.insert((key.1, key.2), idx);", "        self.orders.insert((key.1, key.2 ^ 1), idx);")], expect="lockstep")
 mutant("c02-mid-price-weighted", "C02", (OB, "        0.5 * (f64::from(bid) + f64::from(ask))", "        0.5 * f64::from(bid) + 0.49 * f64::from(ask)"), expect="views")
+mutant("c03-reset-does-nothing", ["C03", "C08", "C11"], (OB, "    pub fn reset_trade_vol(&mut self) {\n        self.trade_vol = 0;", "    pub fn reset_trade_vol(&mut self) {"), expect="does not (only) reset")
+mutant("c01-empty-side-no-exit", "C01", (OB, "                None => {\n                    break;\n                }", "                None => {}", ), expect="K4-loop", first=True)
